@@ -979,6 +979,18 @@ class W3LeafMatcher(LeafMatcher):
     def is_active(self):
         return not self._atend and self._i < self._blocklength
 
+    def copy(self):
+        # An independent cursor over the same posting list, at the same
+        # posting
+        m = self.__class__(self._postfile, self._startoffset, self._length,
+                           self.format, term=self._term,
+                           byteids=self._byteids, scorer=self.scorer)
+        if self.is_active():
+            m.skip_to(self.id())
+        else:
+            m._atend = True
+        return m
+
     def id(self):
         # Get the current ID (docnum for regular postings, term for vector)
 
